@@ -843,7 +843,9 @@ META = {
               "system: with notify_all callers do not interact; witness that notify() strands the second sender); "
               "ProxyCommand.recv returns at EOF; witness theorems for the three repaired hangs (old "
               "accept(), old ensure_session(), old ProxyCommand.recv). The rows are tied to the code behaviourally: "
-              "13 APIs x 4 loss modes x 2 phases on real Transports under a watchdog, compared with the model's "
+              "13 APIs x 6 loss modes (eof, DISCONNECT, garbage, local close, recv() raising OSError with / without errno) x 2 phases "
+              "on real Transports under a watchdog (also with a socket the application had put its own long timeout on, and a "
+              "ProxyCommand whose child is reaped the moment it exits), compared with the model's "
               "prediction, every run; plus calls entered from inside the shutdown path after each of its steps and "
               "channel requests raced by the loss. The ORDER of the wake-ups on both shutdown paths and the guard of "
               "Channel._event_pending are regenerated from the AST every run and the rows are built from them "
